@@ -512,25 +512,27 @@ impl Scan<'_> {
             }
         }
     }
-    fn value(&mut self, depth: usize) -> Result<(), String> {
+    fn value(&mut self, depth: usize) -> Result<T, String> {
+        let to_string = |k: &[u32]| -> String { k.iter().map(|c| char::from_u32(*c).unwrap_or('\u{fffd}')).collect() };
         match self.peek().ok_or("unexpected end")? {
-            'n' => self.lit("null"),
-            't' => self.lit("true"),
-            'f' => self.lit("false"),
-            '"' => self.string().map(|_| ()),
+            'n' => self.lit("null").map(|_| T::Null),
+            't' => self.lit("true").map(|_| T::Bool(true)),
+            'f' => self.lit("false").map(|_| T::Bool(false)),
+            '"' => self.string().map(|s| T::Str(to_string(&s))),
             '[' => {
                 self.i += 1;
+                let mut xs = Vec::new();
                 if self.peek() == Some(']') {
                     self.i += 1;
-                    return Ok(());
+                    return Ok(T::Arr(xs));
                 }
                 loop {
-                    self.value(depth + 1)?;
+                    xs.push(self.value(depth + 1)?);
                     match self.peek() {
                         Some(',') => self.i += 1,
                         Some(']') => {
                             self.i += 1;
-                            return Ok(());
+                            return Ok(T::Arr(xs));
                         }
                         other => return Err(format!("unexpected {other:?} in array at char {}", self.i)),
                     }
@@ -538,9 +540,10 @@ impl Scan<'_> {
             }
             '{' => {
                 self.i += 1;
+                let mut kvs: Vec<(String, T)> = Vec::new();
                 if self.peek() == Some('}') {
                     self.i += 1;
-                    return Ok(());
+                    return Ok(T::Obj(kvs));
                 }
                 let mut prev: Option<Vec<u32>> = None;
                 loop {
@@ -552,16 +555,18 @@ impl Scan<'_> {
                         }
                     }
                     if depth == 0 {
-                        self.top_keys.push(k.iter().map(|c| char::from_u32(*c).unwrap_or('\u{fffd}')).collect());
+                        self.top_keys.push(to_string(&k));
                     }
+                    let key = to_string(&k);
                     prev = Some(k);
                     self.eat(':')?;
-                    self.value(depth + 1)?;
+                    let v = self.value(depth + 1)?;
+                    kvs.push((key, v));
                     match self.peek() {
                         Some(',') => self.i += 1,
                         Some('}') => {
                             self.i += 1;
-                            return Ok(());
+                            return Ok(T::Obj(kvs));
                         }
                         other => return Err(format!("unexpected {other:?} in object at char {}", self.i)),
                     }
@@ -586,22 +591,45 @@ impl Scan<'_> {
                     return Err(format!("number {all} outside ±(2^53−1)"));
                 }
                 self.ints.push(v);
-                Ok(())
+                Ok(T::Num(Num { text: all, int: Some(v) }))
             }
             other => Err(format!("unexpected {other:?} at char {} (whitespace or stray byte)", self.i)),
         }
     }
 }
 
-/// Check `out` against the canonical JSON grammar; returns (integers, top-level keys).
-fn validate_canonical(out: &str) -> Result<(Vec<i128>, Vec<String>), String> {
+/// Check `out` against the canonical JSON grammar; returns (integers, top-level keys, the value).
+fn validate_canonical(out: &str) -> Result<(Vec<i128>, Vec<String>, T), String> {
     let chars: Vec<char> = out.chars().collect();
     let mut sc = Scan { s: &chars, i: 0, ints: vec![], top_keys: vec![] };
-    sc.value(0)?;
+    let v = sc.value(0)?;
     if sc.i != chars.len() {
         return Err(format!("trailing characters after value at char {}", sc.i));
     }
-    Ok((sc.ints, sc.top_keys))
+    Ok((sc.ints, sc.top_keys, v))
+}
+
+/// Equality of JSON values: objects as maps (order of entries irrelevant, keys distinct), arrays
+/// by position, numbers by integer value.
+fn same_value(a: &T, b: &T) -> bool {
+    match (a, b) {
+        (T::Null, T::Null) => true,
+        (T::Bool(x), T::Bool(y)) => x == y,
+        (T::Num(x), T::Num(y)) => x.int.is_some() && x.int == y.int,
+        (T::Str(x), T::Str(y)) => x == y,
+        (T::Arr(x), T::Arr(y)) => x.len() == y.len() && x.iter().zip(y).all(|(p, q)| same_value(p, q)),
+        (T::Obj(x), T::Obj(y)) => {
+            x.len() == y.len()
+                && x.iter().all(|(k, v)| {
+                    let mut hits = y.iter().filter(|(k2, _)| k2 == k);
+                    match (hits.next(), hits.next()) {
+                        (Some((_, w)), None) => same_value(v, w),
+                        _ => false,
+                    }
+                })
+        }
+        _ => false,
+    }
 }
 
 // ------------------------------------------------------------------------------------------
@@ -698,11 +726,14 @@ fn run_canon(texts: &[String], tree: &T) -> Outcome {
             }
             match validate_canonical(out) {
                 Err(e) => t3.push(format!("output is not in canonical form: {e}")),
-                Ok((mut got, _)) => {
+                Ok((mut got, _, out_value)) => {
                     got.sort();
                     ints.sort();
                     if got != ints && !bad {
                         t3.push("the integers of the output are not the integers of the input".into());
+                    }
+                    if !bad && !same_value(&value, &out_value) {
+                        t3.push("the canonical output does not denote the JSON value of the input (something was dropped, added or altered)".into());
                     }
                 }
             }
@@ -723,7 +754,7 @@ fn run_canon(texts: &[String], tree: &T) -> Outcome {
     Outcome { imp: show(&reference), t3 }
 }
 
-fn run_sig(text: &str) -> Outcome {
+fn run_sig(text: &str, tree: &T) -> Outcome {
     let mut t3 = Vec::new();
     let r: Res = match serde_json::from_str::<Value>(text) {
         Ok(Value::Object(map)) => match try_from_json_map(map) {
@@ -731,9 +762,17 @@ fn run_sig(text: &str) -> Outcome {
                 Ok(s) => {
                     match validate_canonical(&s) {
                         Err(e) => t3.push(format!("canonical_json output is not in canonical form: {e}")),
-                        Ok((_, keys)) => {
+                        Ok((_, keys, out_value)) => {
                             if keys.iter().any(|k| k == "signatures" || k == "unsigned") {
                                 t3.push("canonical_json kept signatures/unsigned".into());
+                            }
+                            if let T::Obj(kvs) = last_wins(tree) {
+                                let expect = T::Obj(
+                                    kvs.into_iter().filter(|(k, _)| k != "signatures" && k != "unsigned").collect(),
+                                );
+                                if !same_value(&expect, &out_value) {
+                                    t3.push("canonical_json output is not the input object without signatures/unsigned".into());
+                                }
                             }
                         }
                     }
@@ -772,7 +811,7 @@ pub fn run(req: &str) -> Outcome {
             let Some(text) = toks.get(1).and_then(|t| text_of(t)) else { return Outcome::bad() };
             let mut it = toks[2..].iter();
             match parse_tree(&mut it) {
-                Some(T::Obj(_)) if it.next().is_none() => run_sig(&text),
+                Some(tree @ T::Obj(_)) if it.next().is_none() => run_sig(&text, &tree),
                 _ => Outcome::bad(),
             }
         }
